@@ -358,6 +358,9 @@ impl ThreadPool {
     /// The `new` function will panic if the initial_worker is zero.
     pub fn new(initial_worker: usize, max_workers: usize) -> ThreadPool {
         assert!(initial_worker > 0);
+        // never more than `max_workers` threads, not even initially
+        let max_workers = max_workers.max(1);
+        let initial_worker = initial_worker.min(max_workers);
 
         let (sender, receiver) = mpsc::channel();
 
@@ -385,9 +388,15 @@ impl ThreadPool {
         F: FnOnce() + Send + 'static,
     {
         let job = Box::new(f);
+        // A job counts as busy from the moment it is queued, so that the decision to grow
+        // does not depend on whether a worker already picked up an earlier job.
+        let busy = {
+            let mut num_busy = self.num_busy.write().unwrap();
+            *num_busy += 1;
+            *num_busy
+        };
         self.sender.send(Message::NewJob(job)).unwrap();
-        if ((self.num_busy() + 1) >= self.workers.len()) && (self.workers.len() <= self.max_workers)
-        {
+        if (busy > self.workers.len()) && (self.workers.len() < self.max_workers) {
             self.workers.push(Worker::new(
                 Arc::clone(&self.receiver),
                 Arc::clone(&self.num_busy),
@@ -426,10 +435,6 @@ impl Worker {
 
             match message {
                 Message::NewJob(job) => {
-                    {
-                        let mut num_busy = num_busy.write().unwrap();
-                        *num_busy += 1;
-                    }
                     job.call_box();
                     {
                         let mut num_busy = num_busy.write().unwrap();
